@@ -141,6 +141,9 @@ structure Resp where
   task : Bool := false
   sharedKey : Bool := false
   pairingChanged : Bool := false
+  /-- a remove-pairing request succeeded: sessions of controllers that are no longer paired
+      are torn down after the response has been sent -/
+  pairingRemoved : Bool := false
   deriving DecidableEq, Repr
 
 /-- Everything a handler body can read or change: `st` = accessory values, topics, prepared
